@@ -100,7 +100,16 @@ class C09(core.PropBase):
     ]
 
     def corpus_cases(self):
-        return [G.deep(c) for c in CORPUS]
+        out = [G.deep(c) for c in CORPUS]
+        # texts that are ALMOST numerals of the declared type, supplied for a parameter nothing else looks at (seed C09-3: the
+        # checked text and the stored text were no longer the same thing)
+        for ty, texts in (("INT", ["7.0", "7.", "-3.00", "+4.0", "0.0", "1e0", "1_0.0", " 7.0 ", "0x7", "7,0", "٧.٠"]),
+                          ("FLOAT", ["1,5", "1.5.0", "0x1p3", "1e", "e5", "--1", "1.5f", "NaN(1)", "Inf inity", "١٫٥"])):
+            for t in texts:
+                out.append({"doc": {"specificationVersion": "jobtemplate-2023-09", "name": "J {{Param.N}}", "parameterDefinitions": [{"name": "N", "type": ty}],
+                                    "steps": [{"name": "S", "script": {"actions": {"onRun": {"command": "c"}}}}]}, "vals": {"N": t}, "envs": []})
+                out.append(dict(G.deep(out[-1]), pre={"N": "2"}))
+        return out
 
     def cases(self, tier, seed):
         rng = random.Random(seed * 7919 + 9)
